@@ -92,6 +92,15 @@ def ev(v, val, hooks=None):
                 return bool(args[0])
             if name == 'len':
                 return len(args[0])
+            if name in ('all', 'any', 'sum', 'sorted', 'tuple', 'list',
+                        'set', 'frozenset', 'repr') and len(args) == 1:
+                import builtins
+                try:
+                    return getattr(builtins, name)(*args)
+                except (TypeError, ValueError) as e:
+                    raise Raised(type(e).__name__)
+            if name == 'reversed' and len(args) == 1:
+                return list(reversed(args[0]))
             if name in ('float', 'int', 'str'):
                 try:
                     return {'float': float, 'int': int, 'str': str}[name](
